@@ -135,6 +135,25 @@ def m_minmax(is_min):
                 vals = [x.as_int() if isinstance(x, Unknown) else x for x in vals]
             else:
                 return eng.unknown_call(st, Unknown('minmax'), args, kw)
+        # infinities of the mp context (ctx.inf / ctx.ninf objects) mixed with symbolic ints
+        def inf_kind(x):
+            t = getattr(x, '_mpf_', None)
+            if isinstance(t, tuple) and len(t) == 4 and not has_sym(t):
+                if tuple(t) == (0, 0, -456, -2):
+                    return 1
+                if tuple(t) == (1, 0, -789, -3):
+                    return -1
+            return 0
+        if has_sym(vals) and any(inf_kind(x) for x in vals):
+            absorbing = [x for x in vals if inf_kind(x) == (-1 if is_min else 1)]
+            if absorbing:
+                return _ret(st, absorbing[0])
+            rest = [x for x in vals if not inf_kind(x)]
+            if not rest:
+                return _ret(st, vals[0])
+            vals = rest
+            if len(vals) == 1:
+                return _ret(st, vals[0])
         if not has_sym(vals):
             try:
                 return _ret(st, (min if is_min else max)(vals))
